@@ -88,9 +88,15 @@ type TermCtx struct {
 	tab    map[string]*Term
 	nextID int
 	tables []*ConstTable
-	tabIdx map[string]int
+	tabHash map[uint64][]int
+	ops     map[opKey]*Term
 	True   *Term
 	False  *Term
+	supp    map[*Term][]*Term
+	suppBad map[*Term]bool
+	scrVal   []uint64
+	scrEpoch []uint32
+	epoch    uint32
 }
 
 // ConstTable is a constant lookup table index->value of width W (index width IW).
@@ -102,7 +108,7 @@ type ConstTable struct {
 }
 
 func NewTermCtx() *TermCtx {
-	c := &TermCtx{tab: make(map[string]*Term, 1024), tabIdx: map[string]int{}}
+	c := &TermCtx{tab: make(map[string]*Term, 1024), tabHash: map[uint64][]int{}, ops: make(map[opKey]*Term, 4096)}
 	c.True = c.Const(0, 1)
 	c.False = c.Const(0, 0)
 	return c
@@ -147,22 +153,28 @@ func (c *TermCtx) Var(name string, w int) *Term {
 	})
 }
 
+type opKey struct {
+	op         Op
+	w, p1, p2  int
+	n          int
+	a0, a1, a2 int
+}
+
 func (c *TermCtx) mk(op Op, w int, p1, p2 int, args ...*Term) *Term {
-	var sb strings.Builder
-	sb.WriteByte('o')
-	sb.WriteString(strconv.Itoa(int(op)))
-	sb.WriteByte(':')
-	sb.WriteString(strconv.Itoa(w))
-	sb.WriteByte(':')
-	sb.WriteString(strconv.Itoa(p1))
-	sb.WriteByte(':')
-	sb.WriteString(strconv.Itoa(p2))
-	for _, a := range args {
-		sb.WriteByte(',')
-		sb.WriteString(strconv.Itoa(a.id))
+	key := opKey{op: op, w: w, p1: p1, p2: p2, n: len(args)}
+	if len(args) > 3 {
+		panic("mk: more than three arguments")
 	}
-	key := sb.String()
-	if t, ok := c.tab[key]; ok {
+	if len(args) > 0 {
+		key.a0 = args[0].id
+	}
+	if len(args) > 1 {
+		key.a1 = args[1].id
+	}
+	if len(args) > 2 {
+		key.a2 = args[2].id
+	}
+	if t, ok := c.ops[key]; ok {
 		return t
 	}
 	as := make([]*Term, len(args))
@@ -191,19 +203,51 @@ func (c *TermCtx) mk(op Op, w int, p1, p2 int, args ...*Term) *Term {
 		if !(op == OpTable && as[0] == sup) {
 			n := 1 << uint(sup.W)
 			vals := make([]uint64, n)
-			model := map[string]uint64{}
-			for v := 0; v < n; v++ {
-				model[sup.Name] = uint64(v)
-				vals[v] = c.Eval(t, model, map[*Term]uint64{})
+			// arguments are constants, the variable itself, or tables of it: one step per value
+			direct := len(as) <= 3
+			var atab [3][]uint64
+			for i, a := range as {
+				if !direct {
+					break
+				}
+				switch {
+				case a.Op == OpConst, a == sup:
+				case a.Op == OpTable && a.Args[0] == sup && len(c.tables[a.P1].Vals) >= n:
+					atab[i] = c.tables[a.P1].Vals
+				default:
+					direct = false
+				}
+			}
+			if direct {
+				var av [3]uint64
+				for v := 0; v < n; v++ {
+					for i, a := range as {
+						switch {
+						case a.Op == OpConst:
+							av[i] = a.C
+						case a == sup:
+							av[i] = uint64(v)
+						default:
+							av[i] = atab[i][v]
+						}
+					}
+					vals[v] = c.applyOp(t, av[:len(as)])
+				}
+			} else {
+				model := map[string]uint64{}
+				for v := 0; v < n; v++ {
+					model[sup.Name] = uint64(v)
+					vals[v] = c.Eval(t, model, map[*Term]uint64{})
+				}
 			}
 			r := c.Table(vals, w, sup)
-			c.tab[key] = r
+			c.ops[key] = r
 			return r
 		}
 	}
 	c.nextID++
 	t.id = c.nextID
-	c.tab[key] = t
+	c.ops[key] = t
 	return t
 }
 
@@ -685,22 +729,36 @@ func (c *TermCtx) Table(vals []uint64, w int, idx *Term) *Term {
 			vals = nv
 		}
 	}
-	var sb strings.Builder
-	sb.WriteString(strconv.Itoa(w))
-	sb.WriteByte(':')
-	sb.WriteString(strconv.Itoa(idx.W))
+	h := uint64(14695981039346656037)
+	h = (h ^ uint64(w)) * 1099511628211
+	h = (h ^ uint64(idx.W)) * 1099511628211
 	for _, v := range vals {
-		sb.WriteByte(',')
-		sb.WriteString(strconv.FormatUint(v, 16))
+		h = (h ^ v) * 1099511628211
 	}
-	key := sb.String()
-	ti, ok := c.tabIdx[key]
-	if !ok {
+	ti := -1
+	for _, cand := range c.tabHash[h] {
+		tb := c.tables[cand]
+		if tb.W != w || tb.IW != idx.W || len(tb.Vals) != len(vals) {
+			continue
+		}
+		same := true
+		for i, v := range vals {
+			if tb.Vals[i] != v {
+				same = false
+				break
+			}
+		}
+		if same {
+			ti = cand
+			break
+		}
+	}
+	if ti < 0 {
 		ti = len(c.tables)
 		cp := make([]uint64, len(vals))
 		copy(cp, vals)
 		c.tables = append(c.tables, &ConstTable{id: ti, IW: idx.W, W: w, Vals: cp})
-		c.tabIdx[key] = ti
+		c.tabHash[h] = append(c.tabHash[h], ti)
 	}
 	return c.mk(OpTable, w, ti, 0, idx)
 }
@@ -722,46 +780,60 @@ func (c *TermCtx) Eval(t *Term, model map[string]uint64, memo map[*Term]uint64) 
 		} else {
 			r &= mask(t.W)
 		}
-	case OpAdd, OpSub, OpMul, OpUDiv, OpSDiv, OpURem, OpSRem, OpAnd, OpOr, OpXor, OpShl, OpLShr, OpAShr:
-		r = evalBin(t.Op, t.W, c.Eval(t.Args[0], model, memo), c.Eval(t.Args[1], model, memo))
-	case OpEq, OpUlt, OpUle, OpSlt, OpSle:
-		r = evalCmp(t.Op, t.Args[0].W, c.Eval(t.Args[0], model, memo), c.Eval(t.Args[1], model, memo))
-	case OpNot:
-		v := c.Eval(t.Args[0], model, memo)
-		if t.W == 0 {
-			r = 1 - v
-		} else {
-			r = ^v & mask(t.W)
-		}
-	case OpNeg:
-		r = (-c.Eval(t.Args[0], model, memo)) & mask(t.W)
 	case OpIte:
 		if c.Eval(t.Args[0], model, memo) == 1 {
 			r = c.Eval(t.Args[1], model, memo)
 		} else {
 			r = c.Eval(t.Args[2], model, memo)
 		}
-	case OpZext:
-		r = c.Eval(t.Args[0], model, memo)
-	case OpSext:
-		r = uint64(signExt(c.Eval(t.Args[0], model, memo), t.Args[0].W)) & mask(t.W)
-	case OpExtr:
-		r = (c.Eval(t.Args[0], model, memo) >> uint(t.P2)) & mask(t.W)
-	case OpBAnd:
-		r = c.Eval(t.Args[0], model, memo) & c.Eval(t.Args[1], model, memo)
-	case OpBOr:
-		r = c.Eval(t.Args[0], model, memo) | c.Eval(t.Args[1], model, memo)
-	case OpTable:
-		tb := c.tables[t.P1]
-		i := c.Eval(t.Args[0], model, memo)
-		if i < uint64(len(tb.Vals)) {
-			r = tb.Vals[i]
-		}
 	default:
-		panic("Eval: op")
+		var av [3]uint64
+		for i, a := range t.Args {
+			av[i] = c.Eval(a, model, memo)
+		}
+		r = c.applyOp(t, av[:])
 	}
 	memo[t] = r
 	return r
+}
+
+// applyOp computes the value of t from the values of its arguments.
+func (c *TermCtx) applyOp(t *Term, av []uint64) uint64 {
+	switch t.Op {
+	case OpAdd, OpSub, OpMul, OpUDiv, OpSDiv, OpURem, OpSRem, OpAnd, OpOr, OpXor, OpShl, OpLShr, OpAShr:
+		return evalBin(t.Op, t.W, av[0], av[1])
+	case OpEq, OpUlt, OpUle, OpSlt, OpSle:
+		return evalCmp(t.Op, t.Args[0].W, av[0], av[1])
+	case OpNot:
+		if t.W == 0 {
+			return 1 - av[0]
+		}
+		return ^av[0] & mask(t.W)
+	case OpNeg:
+		return (-av[0]) & mask(t.W)
+	case OpIte:
+		if av[0] == 1 {
+			return av[1]
+		}
+		return av[2]
+	case OpZext:
+		return av[0]
+	case OpSext:
+		return uint64(signExt(av[0], t.Args[0].W)) & mask(t.W)
+	case OpExtr:
+		return (av[0] >> uint(t.P2)) & mask(t.W)
+	case OpBAnd:
+		return av[0] & av[1]
+	case OpBOr:
+		return av[0] | av[1]
+	case OpTable:
+		tb := c.tables[t.P1]
+		if av[0] < uint64(len(tb.Vals)) {
+			return tb.Vals[av[0]]
+		}
+		return 0
+	}
+	panic("applyOp: op")
 }
 
 func sortStr(w int) string {
